@@ -15,7 +15,7 @@ def baseOfJson (j : Json) : Except String Base := do
 def feedOfJson (j : Json) : Except String Feed := do
   match ← arrOfJson j with
   | [i, s, p, r, w] =>
-    pure ⟨← natOfJson i, ← natOfJson s, ← ratOfJson p, ← listOf (optOf ratOfJson) r, ← optOf ratOfJson w⟩
+    pure ⟨← natOfJson i, ← natOfJson s, ← optOf ratOfJson p, ← listOf (optOf ratOfJson) r, ← optOf ratOfJson w⟩
   | _ => throw "feed = [id,state,pev,[res],rw]"
 
 def catToJson : Cat → Json
